@@ -1,4 +1,4 @@
-(* Run.C20 — driver for the regenerated file coq/Gen/C20/MathEmitted.v.
+(* Run.C20 — driver for the regenerated files coq/Gen/C20/MathEmitted_<k>.v.
    The harness compiles probe programs with the real compiler, translates every emitted
    function (fail-closed) into MC.Syntax terms and lets Coq decide
    - parsed term list = the model's term list (Leibniz equality, decided), and
